@@ -4,6 +4,7 @@ import (
 	"github.com/postalsys/muti-metroo/internal/crypto"
 	"github.com/postalsys/muti-metroo/internal/protocol"
 	"github.com/postalsys/muti-metroo/internal/stream"
+	"io"
 )
 
 // C07: frames never exceed the payload limit and stream bytes are re-assembled
@@ -128,11 +129,16 @@ func harnessC07MeshRead() {
 		verif_assert(err == nil, "C07/setup")
 		verif_assert(c.stream.PushData(ct) == nil, "C07/setup")
 	}
+	// the sender finishes: a reader that lost bytes sees the end of the stream instead of blocking
+	c.stream.HandleRemoteFinWrite()
 	bufSize := 1 + verif_choose(3)
 	var got []byte
-	for len(got) < len(want) {
+	for round := 0; round < 16; round++ {
 		buf := make([]byte, bufSize)
 		n, err := c.Read(buf)
+		if err == io.EOF {
+			break
+		}
 		verif_assert(err == nil && n > 0 && n <= bufSize, "C07/read-result")
 		if err != nil || n == 0 {
 			return
